@@ -674,12 +674,19 @@ func (x *g) stmtL0(d, nest int, inLoop bool) string {
 }
 
 // GenerateL0 builds a program of layer L0 (values profile).
-func GenerateL0(r *hx.Rng) *Prog {
+func GenerateL0(r *hx.Rng) *Prog { return GenerateL0Wrapped(r, WrapNone) }
+
+// GenerateL0Wrapped: like GenerateL0 with the body of `main` placed in a closure / inner function
+// (see WrapMode); the same random choices give the same statements for every mode.
+func GenerateL0Wrapped(r *hx.Rng, mode WrapMode) *Prog {
 	x := &g{r: r, forms: map[string]bool{"L0": true}, values: true}
 	body := x.stmtsL0(2+r.Intn(5), 2+r.Intn(2), 0, false)
-	src := PreludeL0 + "access(all) fun main(): Int {\n" +
-		"    var n = 0\n    var m = 1\n    var k = 7\n    var bv = false\n    var ob: Int? = nil\n" +
-		body + "    log(n); log(m); log(k); log(bv); log(ob)\n    return n + m\n}\n"
+	if mode != WrapNone {
+		x.form(mode.String())
+	}
+	src := PreludeL0 + wrapMain(mode,
+		"    var n = 0\n    var m = 1\n    var k = 7\n    var bv = false\n    var ob: Int? = nil\n",
+		body, "    log(n); log(m); log(k); log(bv); log(ob)\n", "n + m")
 	forms := make([]string, 0, len(x.forms))
 	for f := range x.forms {
 		forms = append(forms, f)
@@ -690,8 +697,14 @@ func GenerateL0(r *hx.Rng) *Prog {
 
 // Generate builds one program.  profile: "order" (evaluation-order profile: no deliberate errors) or
 // "values" (boundary values, sized arithmetic, errors, recursion).
-func Generate(r *hx.Rng, profile string) *Prog {
+func Generate(r *hx.Rng, profile string) *Prog { return GenerateWrapped(r, profile, WrapNone) }
+
+// GenerateWrapped: like Generate with the body of `main` placed in a closure / inner function.
+func GenerateWrapped(r *hx.Rng, profile string, mode WrapMode) *Prog {
 	x := &g{r: r, forms: map[string]bool{}, values: profile == "values"}
+	if mode != WrapNone {
+		x.form(mode.String())
+	}
 	var body string
 	depth := 2 + r.Intn(2)
 	if r.Chance(35) {
@@ -708,12 +721,12 @@ func Generate(r *hx.Rng, profile string) *Prog {
 	} else {
 		body = x.stmts(2+r.Intn(4), depth, 0)
 	}
-	src := strings.Replace(Prelude, "%METHODS%", strings.Join(x.methods, ""), 1) + "access(all) fun main(): Int {\n" +
-		"    var n = 0\n    var m = 1\n    var arr = [1, 2, 3]\n    var dic = {0: 5, 1: 6}\n" +
-		"    var s = S(1, 2)\n    var s2 = S(3, 4)\n    var ob: Int? = nil\n" +
-		body +
-		"    log(n); log(m); log(arr); log(s.x); log(s.a); log(s2.y); log(ob); log(dic[0]); log(dic[2])\n" +
-		"    return n + m + arr[0] + s.x\n}\n"
+	src := strings.Replace(Prelude, "%METHODS%", strings.Join(x.methods, ""), 1) + wrapMain(mode,
+		"    var n = 0\n    var m = 1\n    var arr = [1, 2, 3]\n    var dic = {0: 5, 1: 6}\n"+
+			"    var s = S(1, 2)\n    var s2 = S(3, 4)\n    var ob: Int? = nil\n",
+		body,
+		"    log(n); log(m); log(arr); log(s.x); log(s.a); log(s2.y); log(ob); log(dic[0]); log(dic[2])\n",
+		"n + m + arr[0] + s.x")
 	forms := make([]string, 0, len(x.forms))
 	for f := range x.forms {
 		forms = append(forms, f)
